@@ -312,6 +312,28 @@ def flip_low_bit(b, at=-1):
     return bytes(b)
 
 
+def flip_bit(raw, k):
+    """flip bit k of raw (msb-first: bit k lives in byte k // 8 under mask 0x80 >> (k % 8)); k < 0 counts from the
+    end (-1 = lsb of the last byte, -8 = msb of the last byte); k is reduced modulo the field size"""
+    nbits = 8 * len(raw)
+    k = k % nbits
+    b = bytearray(raw)
+    b[k // 8] ^= 0x80 >> (k % 8)
+    return bytes(b), k
+
+
+def stratified_bits(nbytes):
+    """first and last bit of every byte, plus every bit of the first and of the last byte"""
+    ks = set(range(8)) | set(range(8 * nbytes - 8, 8 * nbytes))
+    for i in range(nbytes):
+        ks.update((8 * i, 8 * i + 7))
+    return sorted(ks)
+
+
+PUB_BYTES = {"curve25519-sha256@libssh.org": 32, "ecdh-sha2-nistp256": 65, "ecdh-sha2-nistp384": 97,
+             "ecdh-sha2-nistp521": 133}     # fixed-size public values; mpints are 128..513 bytes (+ sign byte)
+
+
 def applicable(alter, kex):
     return alter not in ("gex_p", "gex_g") or KEX_FAMILY[kex] == "gex"
 
@@ -383,10 +405,18 @@ class Mitm:
         if src == "a":
             if self.fam == "gex" and ptype == 34:
                 w["min"], w["n"], w["max"] = r.u32(), r.u32(), r.u32()
-            elif self.fam in ("dh", "gex") and ptype in (30, 32):
-                w["e"] = r.mpint()
-            elif ptype == 30:
-                w["qc"] = r.string()
+            elif (self.fam in ("dh", "gex") and ptype in (30, 32)) or (self.fam in ("ecdh", "x25519") and ptype == 30):
+                raw = r.string()
+                # the client hashes what it SENT; only the server sees the flipped copy
+                if self.fam in ("dh", "gex"):
+                    w["e"] = int.from_bytes(raw, "big", signed=True)
+                else:
+                    w["qc"] = raw
+                if (isinstance(self.alter, str) and self.alter.startswith("init_bit:") and self.exchange == self.at
+                        and self.applied is None):
+                    new, k = flip_bit(raw, int(self.alter.split(":")[1]))
+                    self.applied = ("init_bit", k, len(raw))
+                    return bytes([ptype]) + w_string(new)
             return None
         now = self.exchange == self.at and self.applied is None
         if self.fam == "gex" and ptype == 31:
@@ -406,6 +436,7 @@ class Mitm:
             pub = r.mpint() if self.fam in ("dh", "gex") else r.string()
             sig = r.string()
             a = self.alter if now else "none"
+            raw_pub = None
             if a == "hostkey_swap":
                 new = other_hostkey_blob(self.hostalg)
                 self.applied, ks = (a, len(ks), len(new)), new
@@ -418,6 +449,12 @@ class Mitm:
                 else:
                     new = self.other_point(pub)
                 self.applied, pub = (a, "v", "v'"), new
+            elif a.startswith("pub_bit:"):  # exactly one bit of the field as it is on the wire
+                raw = w_mpint(pub)[4:] if self.fam in ("dh", "gex") else pub
+                new, k = flip_bit(raw, int(a.split(":")[1]))
+                self.applied = ("pub_bit", k, len(raw))
+                raw_pub = new
+                pub = int.from_bytes(new, "big", signed=True) if self.fam in ("dh", "gex") else new
             elif a == "pub_valid":          # another well-formed public value
                 new = self.attacker_pub()
                 self.applied, pub = (a, "server", "attacker"), new
@@ -446,7 +483,7 @@ class Mitm:
             w["ks"], w["sig"] = ks, sig
             if fam in ("dh", "gex"):
                 w["f"] = pub
-                return bytes([ptype]) + w_string(ks) + w_mpint(pub) + w_string(sig)
+                return bytes([ptype]) + w_string(ks) + (w_string(raw_pub) if raw_pub is not None else w_mpint(pub)) + w_string(sig)
             w["qs"] = pub
             return bytes([ptype]) + w_string(ks) + w_string(pub) + w_string(sig)
         return None
@@ -526,7 +563,8 @@ def kex_record(s, mitm, rekeys_done, client_ok, server_ok):
                 ex["hstruct"] = False
         exchanges.append(ex)
     return {"kex": s.kex, "kexes": list(mitm.kexes), "hostalg": s.hostalg, "alter": mitm.alter if isinstance(mitm.alter, str) else "custom",
-            "applied": mitm.applied is not None, "alter_at": mitm.at, "rekeys": rekeys_done,
+            "applied": mitm.applied is not None, "applied_detail": list(mitm.applied) if mitm.applied else [],
+            "alter_at": mitm.at, "rekeys": rekeys_done,
             "client_ok": bool(client_ok), "server_ok": bool(server_ok),
             "client_active": bool(s.tc.is_active()),
             "real": I(("key", real.asbytes())) if real is not None else 0,
@@ -664,10 +702,11 @@ def sig_case_client(declared, sign_alg, blob_name, disabled, universe):
         s.close()
 
 
-def sig_case_server(declared, sign_alg, blob_name, disabled, universe, user="u"):
+def sig_case_server(declared, sign_alg, blob_name, disabled, universe, user="u", probe=None):
     """paramiko is the server (publickey algorithms in `disabled` disabled); a hand-driven client sends one
     USERAUTH_REQUEST declaring `declared`, with the bundled key of sign_alg's family and a genuine signature made
-    with sign_alg over the correct session blob, the signature blob naming blob_name."""
+    with sign_alg over the correct session blob, the signature blob naming blob_name.  probe: algorithm named by an
+    unsigned request for the same key sent first (answered PK_OK or not) - the usual two-step publickey flow."""
     key = key_for(sign_alg)
     cert = declared.endswith(CERT)
     keyblob = cert_blob("rsa") if cert and SIG_FAMILY[sign_alg] == "rsa" else key.asbytes()
@@ -706,6 +745,19 @@ def sig_case_server(declared, sign_alg, blob_name, disabled, universe, user="u")
         s.tc._send_message(m)
         if not wait_for({MSG_SERVICE_ACCEPT}):
             raise RuntimeError("no SERVICE_ACCEPT")
+        probe_ok = False
+        if probe:
+            m = Message()
+            m.add_byte(cMSG_USERAUTH_REQUEST)
+            m.add_bytes(w_string(user) + w_string("ssh-connection") + w_string("publickey") + b"\x00" +
+                        w_string(probe) + w_string(keyblob))
+            s.tc._send_message(m)
+            wait_for({MSG_USERAUTH_PK_OK, MSG_USERAUTH_FAILURE})
+            probe_ok = MSG_USERAUTH_PK_OK in got
+            if not probe_ok and MSG_USERAUTH_FAILURE not in got:
+                s.quiesce(1.0)
+            while MSG_USERAUTH_FAILURE in got:       # a refused probe: keep FAILURE out of the final verdict
+                got.remove(MSG_USERAUTH_FAILURE)
         head = (w_string(user) + w_string("ssh-connection") + w_string("publickey") + b"\x01" +
                 w_string(declared) + w_string(keyblob))
         blob = w_string(s.tc.session_id) + cMSG_USERAUTH_REQUEST + head
@@ -714,13 +766,18 @@ def sig_case_server(declared, sign_alg, blob_name, disabled, universe, user="u")
         m.add_byte(cMSG_USERAUTH_REQUEST)
         m.add_bytes(head)
         m.add_string(sig)
-        s.tc._send_message(m)
+        if s.tc.is_active():
+            try:
+                s.tc._send_message(m)
+            except Exception:
+                pass
         wait_for({MSG_USERAUTH_SUCCESS, MSG_USERAUTH_FAILURE})
         if MSG_USERAUTH_SUCCESS not in got and MSG_USERAUTH_FAILURE not in got:
             s.quiesce(1.0)
         outcome = ("success" if MSG_USERAUTH_SUCCESS in got else "failure" if MSG_USERAUTH_FAILURE in got
                    else "disconnect" if not s.ts.is_active() else "silent")
         return {"side": "server", "declared": declared, "sign": sign_alg, "blob": blob_name, "enabled": enabled,
+                "probe": probe or "none", "probe_ok": probe_ok,
                 "negotiated": declared, "reached": any(x[0] == "check_auth_publickey" for x in srv.cb),
                 "accepted": bool(s.ts.is_authenticated()) or outcome == "success", "active": bool(s.ts.is_active()),
                 "error": outcome}
